@@ -94,3 +94,21 @@ Print Assumptions C05_steering_only_V_W.
 Print Assumptions C05_steering_W_only_null.
 Print Assumptions C05_steering_V_not_null.
 Print Assumptions C05_route_custom_frame.
+
+(* ---- section typing and routing are the Python's ---------------------------------------------
+   section_type / route equal the definitions re-translated on every run from
+   reader.determine_section_type and from the section-letter chain of LASFile.read
+   (translators/funcs.py -> Gen/Funcs.v).  stype_name t is the string the Python returns for t
+   (injective: stype_name_inj); store_section key is `self.sections[key] = sct_items` on the
+   model's record; titles start with '~'; None = IndexError on the title "~". *)
+Require Import Funcs FuncsPinsLib FuncsPinSectionType FuncsPinRoute.
+Theorem C05_section_type_current : forall title,
+  stype_name (section_type title) = py_determine_section_type title.
+Proof. exact section_type_pin. Qed.
+Theorem C05_route_current : forall title sec l,
+  startswith [ch_tilde] title = true ->
+  option_map (fun letter => route title letter sec l) (second_upper title)
+  = option_map (fun key => store_section key sec l) (py_route_key title false).
+Proof. exact route_pin. Qed.
+Print Assumptions C05_section_type_current.
+Print Assumptions C05_route_current.
